@@ -1,10 +1,10 @@
-(* Generated.v — written by /verif/translator from /repo on every run. Do not edit. *)
+(* JidEscape.v — written by /verif/translator from the repository's sources on every run. Do not edit. *)
 From XV Require Import lib.Bytes.
-
-Fixpoint pair_up (s : bytes) : list (byte * byte) :=
-  match s with a :: b :: r => (a, b) :: pair_up r | _ => [] end.
 
 (* ---- jid/escape.go ---- *)
 Definition escape_set : bytes := hex "202226272f3a3c3e405c".
+Fixpoint pair_up (s : bytes) : list (byte * byte) :=
+  match s with a :: b :: r => (a, b) :: pair_up r | _ => [] end.
+
 Definition unescape_pairs : list (byte * byte) := pair_up (hex "323032323236323732463266334133433345336133633365343035433563").
 
